@@ -43,6 +43,26 @@ def trim(b):
     return b.strip(b" \t")
 
 
+def ref_params(target):
+    """req.params as an independent reading of the request target: everything after the first `?`, pieces cut at `&`, the first
+    `=` splits key and value, a piece without `=` is dropped, a repeated key keeps its last value; canonical form = sorted by key."""
+    if b"?" not in target:
+        return "-"
+    d = {}
+    for piece in target.split(b"?", 1)[1].split(b"&"):
+        if b"=" in piece:
+            k, v = piece.split(b"=", 1)
+            d[k] = v
+    if not d:
+        return "-"
+    return "&".join("%s=%s" % (hexs(k), hexs(d[k])) for k in sorted(d))
+
+
+def rev(mi, target, fields_map, body):
+    """the handler event for a request: method index, query-stripped path, header map, body digest, req.params"""
+    return "R/%d/%s/%s/%s/%s" % (mi, hexs(target.split(b"?", 1)[0]), show_headers(fields_map), digest(body), ref_params(target))
+
+
 # ------------------------------------------------------------------ reference encoder (generator side, independent of the code under test)
 def rand_token(rng, lo=1, hi=10):
     return bytes(rng.choice(TOKEN_CHARS) for _ in range(rng.range(lo, hi)))
@@ -648,7 +668,7 @@ def gen_request(rng, big=False, small=False, last=True):
     mi = rng.choice([0, 0, 1, 1, 2, 3, 4, 5, 6, 8])
     method = METHODS[mi].encode()
     path = b"/" + b"/".join(rand_token(rng, 1, 6) for _ in range(rng.range(0, 3)))
-    query = rng.choice([b"", b"", b"?a=1", b"?x=%20&y", b"?", b"?t=12:30:00&u=a:b", b"?:"])
+    query = rng.choice([b"", b"", b"?a=1", b"?x=%20&y", b"?", b"?t=12:30:00&u=a:b", b"?:", b"?a=1&a=2&b=&=c&&d", b"?k=v=w&K=V", b"?a=1?b=2&c=%26"])
     tform = rng.below(12)
     if tform == 0:
         path = bytes(rng.choice(b"/abc\x80\xff~%:") for _ in range(rng.range(1, 9)))
@@ -687,7 +707,7 @@ def gen_request(rng, big=False, small=False, last=True):
         place(rng.choice([b"Transfer-Encoding", b"transfer-encoding"]), rng.choice([b"chunked", b"Chunked", b"gzip, chunked"]))
         tail = render_chunked(rng, body)
     wire = method + b" " + path + query + b" " + version + b"\r\n" + b"".join(l + b"\r\n" for l in fl.lines) + b"\r\n" + tail
-    ev = "R/%d/%s/%s/%s" % (mi, hexs(path), show_headers(fl.map), digest(body))
+    ev = rev(mi, path + query, fl.map, body)
     return wire, ev, kind
 
 
@@ -868,7 +888,7 @@ def plain_request(mi, path, body=b"", kind="none", nchunks=7, pad=0):
     else:
         tail = b""
     wire = METHODS[mi].encode() + b" " + path + b" HTTP/1.1\r\n" + b"".join(k + b": " + v + b"\r\n" for k, v in fields) + b"\r\n" + tail
-    return wire, "R/%d/%s/%s/%s" % (mi, hexs(path), show_headers(fields), digest(body))
+    return wire, rev(mi, path, fields, body)
 
 
 def gen_server_pipeline_offsets(ctx, rng, quick):
@@ -955,7 +975,7 @@ def gen_leading_zero_lengths(ctx, rng, quick):
                 fields = [(b"Host", b"a"), (b"Transfer-Encoding", b"chunked")]
                 tail = (text + b"\r\n" + body + b"\r\n" if n else b"") + b"0" * rng.choice([1, 17, 30]) + b"\r\n\r\n"
             wire = b"POST /z HTTP/1.1\r\n" + b"".join(k + b": " + v + b"\r\n" for k, v in fields) + b"\r\n" + tail
-            reqs = [(wire, "R/1/%s/%s/%s" % (hexs(b"/z"), show_headers(fields), digest(body))), plain_request(0, b"/next")]
+            reqs = [(wire, rev(1, b"/z", fields, body)), plain_request(0, b"/next")]
             stream = b"".join(r[0] for r in reqs)
             ends = [len(reqs[0][0]), len(stream)]
             seglist = [[stream]] + [[stream[:c], stream[c:]] for c in range(1, len(stream))] + [[stream[i:i + 1] for i in range(len(stream))]]
@@ -1035,6 +1055,286 @@ def gen_server_direct(ctx, rng, n):
     return [{"cat": "server-direct", "ops": ops[i:i + 200]} for i in range(0, len(ops), 200)]
 
 
+# ------------------------------------------------------------------ extension round: reach, long connections, closes, pool oracle
+def many_fields(rng, n, wide=False):
+    """n distinct plain field lines (name, value) - none of them a framing / reserved field"""
+    out = []
+    for i in range(n):
+        name = b"X-F%d-" % i + rand_token(rng, 1, 6)
+        value = rand_value(rng)[:40].strip(b" \t") if not wide else bytes(rng.choice(b"abcdefghij0123456789 ;=") for _ in range(rng.range(60, 120))).strip(b" ")
+        out.append((name, value))
+    return out
+
+
+def gen_server_reach(ctx, rng, quick):
+    """Deterministic shapes the random generators never reached (review M3 / never-reached list): 17-120 field lines before the
+    framing field, a request target of exactly MAX_REQUEST_TARGET_SIZE and one byte more, HTTP/1.2, HTTP/2.0, empty / repeated
+    Host, CTL in the target, unknown and malformed method tokens - each whole, cut in two and in 1500-byte reads.  The expected
+    answer line is complete (handler event or error status + close)."""
+    cases = []
+    shapes = []
+
+    def req(method_i, target, version=b"HTTP/1.1", fields=None, body=b"", kind="none", method_txt=None):
+        fields = list(fields if fields is not None else [(b"Host", b"a")])
+        if kind == "cl":
+            fields.append((b"Content-Length", b"%d" % len(body)))
+            tail = body
+        elif kind == "chunked":
+            fields.append((b"Transfer-Encoding", b"chunked"))
+            tail = b"".join(b"%x\r\n" % len(body[i:i + 1000]) + body[i:i + 1000] + b"\r\n" for i in range(0, len(body), 1000)) + b"0\r\n\r\n"
+        else:
+            tail = b""
+        m = method_txt if method_txt is not None else METHODS[method_i].encode()
+        wire = m + b" " + target + b" " + version + b"\r\n" + b"".join(k + b": " + v + b"\r\n" for k, v in fields) + b"\r\n" + tail
+        return wire, fields
+    for n in (16, 17, 18, 33, 64, 120):
+        for kind in ("cl", "chunked"):
+            body = rng.bytes(rng.choice([1, 10, 700]))
+            fields = [(b"Host", b"a")] + many_fields(rng, n)
+            wire, fl = req(1, b"/many%d" % n, fields=fields, body=body, kind=kind)
+            shapes.append(("fields-%d-%s" % (n, kind), wire, [rev(1, b"/many%d" % n, fl, body), "S:200"]))
+    big = many_fields(rng, 90, wide=True)
+    wire, fl = req(2, b"/bighdr", fields=[(b"Host", b"a")] + big, body=b"xyz", kind="cl")
+    assert len(wire) > 8192
+    shapes.append(("header-block-%d" % len(wire), wire, [rev(2, b"/bighdr", fl, b"xyz"), "S:200"]))
+    maxt = 8192
+    for d in (-1, 0, 1, 2):
+        t = b"/" + b"t" * (maxt + d - 1)
+        wire, fl = req(0, t)
+        shapes.append(("target-%d" % len(t), wire, [rev(0, t, fl, b""), "S:200"] if d <= 0 else ["S:414", "X"]))
+    tq = b"/q?" + b"&".join(b"k%d=%d" % (i, i) for i in range(400))
+    wire, fl = req(0, tq)
+    shapes.append(("query-400-params", wire, [rev(0, tq, fl, b""), "S:200"]))
+    for ver, exp in ((b"HTTP/1.2", None), (b"HTTP/1.9", None), (b"HTTP/2.0", ["S:505", "X"]), (b"HTTP/0.9", ["S:505", "X"]), (b"HTTP/1.10", ["S:400", "X"]),
+                     (b"http/1.1", ["S:400", "X"]), (b"HTTP/1.", ["S:400", "X"])):
+        wire, fl = req(0, b"/v", version=ver)
+        shapes.append(("version-" + ver.decode(), wire, exp if exp else [rev(0, b"/v", fl, b""), "S:200"]))
+    wire, fl = req(0, b"/h", fields=[(b"Host", b"")])
+    shapes.append(("host-empty", wire, ["S:400", "X"]))
+    wire, fl = req(0, b"/h", fields=[(b"Host", b"a"), (b"host", b"a")])
+    shapes.append(("host-twice", wire, ["S:400", "X"]))
+    wire, fl = req(0, b"/h", fields=[(b"X", b"y")])
+    shapes.append(("host-missing-1.1", wire, ["S:400", "X"]))
+    wire, fl = req(0, b"/h", version=b"HTTP/1.0", fields=[(b"X", b"y")])
+    shapes.append(("host-missing-1.0", wire, [rev(0, b"/h", fl, b""), "S:200"]))
+    for ctl in (b"\x01", b"\x7f", b"\x1f", b"\x00"):
+        wire, fl = req(0, b"/c" + ctl + b"d")
+        shapes.append(("target-ctl-%02x" % ctl[0], wire, ["S:400", "X"]))
+    wire, fl = req(0, b"/hi\x80\xff")
+    shapes.append(("target-high-bytes", wire, [rev(0, b"/hi\x80\xff", fl, b""), "S:200"]))
+    for mt, exp in ((b"BREW", ["S:501", "X"]), (b"get", ["S:501", "X"]), (b"G@T", ["S:400", "X"]), (b"GE\x80", ["S:400", "X"])):
+        wire, fl = req(0, b"/m", method_txt=mt)
+        shapes.append(("method-" + mt.decode("latin1"), wire, exp))
+    # whitespace between field name and colon (RFC 9112 5.1: a server MUST answer 400; FC15d) - on the framing fields and on others
+    for i, (fl_line, tail) in enumerate([(b"Content-Length : 5", b"hello"), (b"Content-Length\t: 5", b"hello"), (b"Content-Length \t : 5", b"hello"),
+                                         (b"Transfer-Encoding : chunked", b"5\r\nhello\r\n0\r\n\r\n"), (b"X-Other : v", b""), (b"content-length : 0", b"")]):
+        wire = b"POST /ws HTTP/1.1\r\nHost: a\r\n" + fl_line + b"\r\n\r\n" + tail
+        shapes.append(("ws-before-colon-%d" % i, wire, ["S:400", "X"]))
+    wire = b"GET /ws HTTP/1.1\r\nHost : a\r\n\r\n"
+    shapes.append(("ws-before-colon-host", wire, ["S:400", "X"]))
+    wire, fl = req(0, b"/ws2", fields=[(b"Host", b"a"), (b"X-V", b"a : b :c")])          # whitespace before a LATER colon is part of the value
+    shapes.append(("ws-before-second-colon", wire, [rev(0, b"/ws2", fl, b""), "S:200"]))
+    follow, fev = plain_request(0, b"/after")
+    for name, wire, evs in shapes:
+        stream = wire + follow
+        blocks, ops = [], []
+        n = len(stream)
+        seglist = [[stream], [stream[:len(wire) // 2], stream[len(wire) // 2:]], [stream[:len(wire) - 1], stream[len(wire) - 1:]],
+                   [stream[i:i + 1500] for i in range(0, n, 1500)]]
+        ends = [len(wire), n]
+        evl = [evs, [fev, "S:200"]]
+        for segs in seglist:
+            o = server_ops(segs)
+            want = ["ok"]
+            acc, k = 0, 0
+            for sgm in segs:
+                acc += len(sgm)
+                got = []
+                while k < 2 and acc >= ends[k]:
+                    got += evl[k]
+                    k += 1
+                want.append("%s | io=- | buf=%d alive=1" % (",".join(got) if got else "-", acc - (ends[k - 1] if k else 0)))
+            blocks.append((len(ops), len(o), want))
+            ops += o
+        cases.append({"cat": "server-reach", "name": name, "ops": ops, "blocks": blocks, "stream_len": n, "nseg": len(blocks), "full_lines": True})
+    return cases
+
+
+def gen_server_long(ctx, rng, quick):
+    """Connections that carry more than MAX_BUFFER_SIZE in total (review M2): 20 POSTs of 100 KiB (Content-Length and chunked
+    alternating) + GETs in between, delivered in the engine's 64 KiB reads, in 8 KiB reads and in 65536/1 alternation; and one
+    chunked request with a single 900 000-byte chunk.  Everything must be dispatched, the connection stays open."""
+    cases = []
+    body = bytes((i * 131 + 17) & 0xFF for i in range(102400))
+    reqs = []
+    for i in range(20):
+        reqs.append(plain_request(1 if i % 2 == 0 else 2, b"/up%d" % i, body[i:] + body[:i], "cl" if i % 2 == 0 else "chunked", 5))
+        if i % 3 == 0:
+            reqs.append(plain_request(0, b"/g%d?i=%d" % (i, i)))
+    pipelines = [("20x100KiB", reqs, [65536, 8192] if quick else [65536, 8192, 1000])]
+    big = bytes((i * 7 + 3) & 0xFF for i in range(900000))
+    wire = b"PUT /chunk900k HTTP/1.1\r\nHost: a\r\nTransfer-Encoding: chunked\r\n\r\n" + b"%x;ext=1\r\n" % len(big) + big + b"\r\n0\r\nTrailer: t\r\n\r\n"
+    one = (wire, rev(2, b"/chunk900k", [(b"Host", b"a"), (b"Transfer-Encoding", b"chunked")], big))
+    pipelines.append(("chunk-900000", [one, plain_request(0, b"/after")], [65536]))
+    for name, rq, steps in pipelines:
+        stream = b"".join(r[0] for r in rq)
+        ends, acc = [], 0
+        for r in rq:
+            acc += len(r[0])
+            ends.append(acc)
+        blocks, ops = [], []
+        for step in steps:
+            segs = [stream[i:i + step] for i in range(0, len(stream), step)]
+            o = server_ops(segs)
+            want = ["ok"]
+            acc, k = 0, 0
+            for sgm in segs:
+                acc += len(sgm)
+                evs = []
+                while k < len(rq) and acc >= ends[k]:
+                    evs += [rq[k][1], "S:200"]
+                    k += 1
+                want.append("%s | io=- | buf=%d alive=1" % (",".join(evs) if evs else "-", acc - (ends[k - 1] if k else 0)))
+            blocks.append((len(ops), len(o), want))
+            ops += o
+        cases.append({"cat": "server-long", "name": name, "ops": ops, "blocks": blocks, "stream_len": len(stream), "nreq": len(rq), "nseg": len(blocks)})
+    return cases
+
+
+def gen_server_gap(ctx, rng, quick):
+    """A read dropped for the buffer cap (or any other terminal close of the I/O thread) followed by MORE reads before the
+    queued close lands (review H1; repaired by FC15b).  The harness no longer erases the session behind the server's back: the
+    close lands only at an explicit `sv closed`.  Whatever follows the closing read - the rest of the body, complete pipelined
+    requests - must produce no event at all."""
+    cases = []
+    smuggled = b"GET /smuggled HTTP/1.1\r\nHost: a\r\n\r\n"
+    for k, (cl, first) in enumerate([(1040000, 1000000), (1048576 + 5, 1048000), (2000000, 1048576 - 60), (1040000, 983040)]):
+        head = b"POST /upload HTTP/1.1\r\nHost: a\r\nContent-Length: %d\r\n\r\n" % cl
+        part1 = head + b"a" * first
+        burst = (b"b" * 40000 + b"GET /legit HTTP/1.1\r\nHost: a\r\n\r\n").ljust(65536, b"x")
+        need = cl - first
+        tail = b"c" * max(0, need) + smuggled
+        segs = [part1[i:i + 65536] for i in range(0, len(part1), 65536)] if k % 2 else [part1]
+        ops = server_ops(segs + [burst, tail, smuggled]) + ["sv closed", "sv data " + hexs(smuggled)]
+        cases.append({"cat": "server-gap", "name": "cap-drop-then-%d" % need, "ops": ops, "nseg": 1, "stream_len": len(part1) + len(burst) + len(tail)})
+    bads = [b"POST /x HTTP/1.1\r\nHost: a\r\nContent-Length: 5x\r\n\r\nhello", b"POST /x HTTP/1.1\r\nHost: a\r\nTransfer-Encoding: gzip\r\n\r\n",
+            b"POST /x HTTP/1.1\r\nHost: a\r\nTransfer-Encoding: chunked\r\n\r\nzz\r\n", b"GET / HTTP/1.1\r\nX: " + b"y" * 66000 + b"\r\n\r\n",
+            b"POST /x HTTP/1.1\r\nHost: a\r\nContent-Length: 5\r\nTransfer-Encoding: chunked\r\n\r\n", b"POST /x HTTP/1.1\r\nHost: a\r\nContent-Length: 10485761\r\n\r\n"]
+    for i, bad in enumerate(bads):
+        pre = plain_request(0, b"/before")[0] if i % 2 else b""
+        ops = server_ops([pre + bad, smuggled, b"\r\n\r\n" + smuggled, smuggled * 3]) + ["sv closed", "sv data " + hexs(smuggled)]
+        cases.append({"cat": "server-gap", "name": "reject-%d-then-more" % i, "ops": ops, "nseg": 1, "stream_len": len(bad)})
+    return cases
+
+
+def gen_server_conn(ctx, rng, n, quick):
+    """The pool / worker / close-landing oracle (review items 2, 3): a pipeline of valid requests (sometimes with one
+    parser-rejected request in it) delivered in random reads while the free worker is parked (`sv hold k`: exactly k more
+    tryEnqueue calls succeed, the rest are answered 503 by the I/O thread), released at a random point, with the engine's close
+    callback (`sv closed`) landing at a random point.  What must hold whatever the oracle says: the requests that reach the
+    handler are a PREFIX of the encoded pipeline (exactly as encoded, in order), and nothing happens after the session is gone."""
+    cases = []
+    for i in range(n):
+        nreq = rng.choice([2, 3, 5, 8])
+        reqs = [gen_request(rng, small=rng.chance(1, 2), last=False) for _ in range(nreq)]
+        bad_at = None
+        if rng.chance(1, 4):
+            bad_at = rng.below(nreq)
+            reqs[bad_at] = (rng.choice([b"GET /nohost HTTP/1.1\r\n\r\n", b"BREW /pot HTTP/1.1\r\nHost: a\r\n\r\n", b"GET /v HTTP/2.0\r\nHost: a\r\n\r\n"]), None, "none")
+        stream = b"".join(r[0] for r in reqs)
+        cs = sorted(set(rng.below(len(stream) + 1) for _ in range(rng.range(1, 6))))
+        segs = [stream[a:b] for a, b in zip([0] + cs, cs + [len(stream)])]
+        ops = ["sv reset"]
+        held = False
+        closed_at = rng.below(len(segs) + 3) if rng.chance(1, 3) else None
+        for j, sg in enumerate(segs):
+            if not held and rng.chance(1, 2):
+                ops.append("sv hold %d" % rng.choice([0, 1, 2, 3, 5000, 5000]))
+                held = True
+            if closed_at == j:
+                ops.append("sv closed")
+            ops.append("sv data " + hexs(sg))
+            if held and rng.chance(1, 3):
+                ops.append("sv release")
+                held = False
+        if held:
+            ops.append("sv release")
+        if closed_at is not None and closed_at >= len(segs):
+            ops.append("sv closed")
+        ops.append("sv data " + hexs(plain_request(0, b"/late")[0]))
+        cases.append({"cat": "server-conn", "ops": ops, "encoded": [r[1] for r in reqs] + [plain_request(0, b"/late")[1]], "bad_at": bad_at,
+                      "nseg": 1, "stream_len": len(stream)})
+    # the queue capacity itself: 1030 requests in one read while the worker is parked and the queue is empty
+    g, gev = plain_request(0, b"/q")
+    cases.append({"cat": "server-conn", "name": "queue-capacity", "ops": ["sv reset", "sv hold 100000", "sv data " + hexs(g * 1030), "sv release", "sv data " + hexs(g)],
+                  "encoded": [gev] * 1031, "bad_at": None, "nseg": 1, "stream_len": len(g) * 1030, "expect_503": True})
+    return cases
+
+
+def gen_client_reach(ctx, rng, quick):
+    """Client shapes never reached: 17-120 field lines before the framing field, a header block above the 8192-byte read
+    size, HTTP/1.2 (rejected: the client speaks 1.0/1.1 only), a Transfer-Encoding spread over several field lines whose last
+    line carries the final coding."""
+    cases = []
+    shapes = []
+    for n in (16, 17, 18, 40, 120):
+        for kind in ("cl", "chunked"):
+            body = rng.bytes(rng.choice([0, 5, 900]))
+            fields = many_fields(rng, n, wide=(n == 120))
+            if kind == "cl":
+                fields.append((b"Content-Length", b"%d" % len(body)))
+                tail = body
+            else:
+                fields.append((b"Transfer-Encoding", b"chunked"))
+                tail = b"%x\r\n" % len(body) + body + b"\r\n0\r\n\r\n" if body else b"0\r\n\r\n"
+            wire = b"HTTP/1.1 200 OK\r\n" + b"".join(k + b": " + v + b"\r\n" for k, v in fields) + b"\r\n" + tail
+            exp = "200 %s %s %s %s" % (hexs(b"1.1"), hexs(b"OK"), show_headers(fields), digest(body))
+            shapes.append(("fields-%d-%s" % (n, kind), wire, exp))
+    for te_lines, body in (([b"gzip", b"chunked"], b"hello"), ([b"gzip, deflate", b"br ,chunked"], b"abc"), ([b"", b"chunked"], b"xy")):
+        fields = [(b"Transfer-Encoding", v) for v in te_lines]
+        tail = b"%x\r\n" % len(body) + body + b"\r\n0\r\n\r\n"
+        wire = b"HTTP/1.1 200 OK\r\n" + b"".join(k + b": " + v + b"\r\n" for k, v in fields) + b"\r\n" + tail
+        # header map: the client keeps the LAST line of a repeated non-Connection field
+        exp = "200 %s %s %s %s" % (hexs(b"1.1"), hexs(b"OK"), show_headers([(b"Transfer-Encoding", te_lines[-1])]), digest(body))
+        shapes.append(("te-%d-lines" % len(te_lines), wire, exp))
+    xr_ops, xr_expect = [], []
+    for name, wire, exp in shapes:
+        stream = wire
+        end = len(stream)
+        cap = 1 << 20
+        seglist = [[stream], [stream[:end // 2], stream[end // 2:]], [stream[:end - 1], stream[end - 1:]], [stream[i:i + 700] for i in range(0, end, 700)]]
+        blocks, ops = [], []
+        for segs in seglist:
+            o = client_ops(b"GET", cap, segs, True)
+            want = ["ok"]
+            acc, done = 0, False
+            for sg in segs:
+                acc += len(sg)
+                if done:
+                    want.append("done")
+                elif acc >= end:
+                    want.append("response %s evict=0" % exp)
+                    done = True
+                else:
+                    want.append(None)
+            want.append("done")
+            blocks.append((len(ops), len(o), want))
+            ops += o
+        cases.append({"cat": "client-valid", "name": "reach:" + name, "ops": ops, "blocks": blocks, "stream_len": end, "cap": cap, "nseg": len(blocks), "close_delim": False})
+        xr_ops.append("xr %s %d 0 1 %s" % (hexs(b"GET"), cap, " ".join(xr_script([stream]))))
+        xr_expect.append(("response", exp, False))
+        # the REAL executeRequest cap throw: effectiveCap one byte below the message
+        xr_ops.append("xr %s %d %d 1 %s" % (hexs(b"GET"), end - 1, rng.choice([0, end - 1, 5]), " ".join(xr_script([stream]))))
+        xr_expect.append(("error cap",))
+    cases.append({"cat": "client-xr", "ops": xr_ops, "expect": xr_expect, "stream_len": 0, "nseg": len(xr_ops)})
+    # HTTP/1.2 and friends
+    vops = []
+    for v in (b"1.2", b"2.0", b"1.10", b"1", b"0.9"):
+        vops += client_ops(b"GET", 1 << 20, [b"HTTP/" + v + b" 200 OK\r\nContent-Length: 0\r\n\r\n"], True)
+    cases.append({"cat": "client-invalid-version", "ops": vops, "nseg": 5})
+    return cases
+
+
 # ------------------------------------------------------------------ property monitors (implementation output only + what the generator encoded)
 def block_lines(c, lines):
     if "blocks" not in c:
@@ -1058,6 +1358,16 @@ def server_events(lines):
     for l in lines:
         if " | io=" in l:
             w = l.split(" | ")[0]
+            if w != "-":
+                evs += w.split(",")
+    return evs
+
+
+def server_events_io(lines):
+    evs = []
+    for l in lines:
+        if " | io=" in l:
+            w = l.split(" | io=")[1].split(" | ")[0]
             if w != "-":
                 evs += w.split(",")
     return evs
@@ -1118,6 +1428,11 @@ def monitor_case(c, impl):
                     base = t
                 elif t != base:
                     bad.append("F2: outcome depends on the segmentation: whole=`%s` block@%d=`%s`" % (base[:120], a, t[:120]))
+            if cat == "client-invalid-version":
+                for op, l in zip(c["ops"], lines):
+                    if op.startswith("cl feed") and not l.startswith("error version"):
+                        bad.append("F4: a response that is not HTTP/1.0 or HTTP/1.1 was not rejected: `%s` -> `%s`" % (op[:60], l[:80]))
+                        break
             if cat == "client-invalid-length":
                 t = client_terminal(lines)
                 if t.startswith("response"):
@@ -1125,6 +1440,53 @@ def monitor_case(c, impl):
                 elif not t.startswith("error") and not any(l.startswith("crash") or l == "hang" for l in lines):
                     bad.append("F4: invalid length information (%s) was not rejected as malformed (outcome `%s`): the client keeps waiting/buffering" % (c.get("name"), t[:60]))
     else:
+        # S8a (FC15b): once the I/O thread has closed the connection (io=...X) or the session is gone, no later read may produce
+        # any event or leave a session behind - whatever the script delivers before the queued close lands
+        gone = False
+        for i, (op, l) in enumerate(zip(c["ops"], impl)):
+            if op == "sv reset":
+                gone = False
+                continue
+            if op == "sv closed":
+                gone = True
+                continue
+            if " | io=" not in l:
+                continue
+            if gone and op.startswith("sv data") and l != "- | io=- | buf=0 alive=0":
+                bad.append("S8: op %d: data delivered after the connection was closed by the I/O thread / the session was gone is still processed: `%s`" % (i, l[:200]))
+                break
+            io = l.split(" | io=")[1].split(" | ")[0]
+            if "X" in io.split(",") or "alive=0" in l:
+                gone = True
+                if "alive=1" in l:
+                    bad.append("S8: op %d: the I/O thread closed the connection but the session lives on (a later read is appended behind a buffer that lacks the dropped bytes): `%s`" % (i, l[:160]))
+                    break
+        if cat == "server-conn":
+            # whatever the pool / the workers / the close callback do: the handler sees a PREFIX of the encoded pipeline
+            evs = [e for e in server_events(impl) if e.startswith("R/")]
+            enc = [e for e in c["encoded"] if e is not None]
+            if evs != enc[:len(evs)]:
+                k = next((j for j, (x, y) in enumerate(zip(evs, enc)) if x != y), min(len(evs), len(enc)))
+                bad.append("S9: request %d handed to the application is not the one encoded at that position (pool/worker/close oracle case): got `%s` want `%s`"
+                           % (k, (evs[k] if k < len(evs) else "-")[:120], (enc[k] if k < len(enc) else "nothing more")[:120]))
+            if c.get("expect_503"):
+                n503 = sum(1 for e in server_events_io(impl) if e == "S:503")
+                if len(evs) != 1024 or n503 != 6:
+                    bad.append("S9: queue-capacity case: %d requests handled, %d answered 503 (1024 / 6 expected for a queue of 1024)" % (len(evs), n503))
+        if cat in ("server-valid", "server-mutated", "server-invalid-length", "server-reach", "server-long") and "blocks" in c and not c.get("independent_blocks"):
+            # S2 (M4): the requests that reach the handler and the final open/closed state do not depend on the segmentation
+            base = None
+            for a, lines, want in block_lines(c, impl):
+                view = ([e for e in server_events(lines) if e.startswith("R/")], "alive=1" in lines[-1] if lines else None,
+                        lines[-1].split("buf=")[1].split()[0] if lines and "alive=1" in lines[-1] else None)
+                if any(l.startswith("crash") or l == "hang" for l in lines) or not any(" | io=" in l for l in lines):
+                    continue            # (a block without a single read - the empty stream dripped byte by byte - says nothing)
+                if base is None:
+                    base = (a, view)
+                elif view != base[1]:
+                    bad.append("S2: the server's outcome depends on the segmentation: block@%d dispatched %d request(s), alive=%s buf=%s; block@%d dispatched %d, alive=%s buf=%s"
+                               % (base[0], len(base[1][0]), base[1][1], base[1][2], a, len(view[0]), view[1], view[2]))
+                    break
         for a, lines, want in block_lines(c, impl):
             for l in lines:
                 if "buf=" in l:
@@ -1135,6 +1497,9 @@ def monitor_case(c, impl):
                 # only what C15 is about: which requests reach the handler (method, path, fields, body), in which op, and the
                 # bytes left in the buffer - not the response status or what happens to the connection afterwards (C16)
                 for j, (l, w) in enumerate(zip(lines, want)):
+                    if c.get("full_lines") and l != w:
+                        bad.append("S1: op %d (%s): got `%s` want `%s`" % (a + j, c.get("name"), l[:200], w[:200]))
+                        break
                     if framing_view(l) != framing_view(w):
                         bad.append("S1: op %d: requests handed to the application differ from those encoded: got `%s` want `%s`" % (a + j, l[:200], w[:200]))
                         break
@@ -1219,6 +1584,42 @@ OBLIGATIONS = [
      "statement": "server: an accepted chunk-size line denotes a size <= MAX_BODY_SIZE (the accumulator cannot wrap)"},
     {"id": "C15_S7", "theorem": "Iora.C15.S7_chunk_scan_progress", "kind": "proved",
      "statement": "server: the chunk scan is total; every continuing iteration strictly advances pos within the buffer (after F26)"},
+    {"id": "C15_S8a", "theorem": "Iora.C15.S8_nothing_after_io_close", "kind": "proved",
+     "statement": "server (FC15b): after a terminal close by the I/O thread (cap, header limit, invalid length, malformed chunks) no later read dispatches anything or changes the session"},
+    {"id": "C15_S8", "theorem": "Iora.C15.S8_dispatch_is_prefix_framing", "kind": "proved",
+     "statement": "server: for EVERY list of reads (any total length, incl. reads that trip the cap, hostile streams) the dispatched requests are exactly the greedy framing of the concatenation of the first j reads - a contiguous prefix of the input; nothing is framed across a dropped read"},
+    {"id": "C15_S8c", "theorem": "Iora.C15.S8_dispatched_is_contiguous_slice", "kind": "proved",
+     "statement": "server: for EVERY list of reads, every request handed to processHttpRequest is what the extractor yields at some offset off of the concatenated input, consuming the bytes [off, off+n) - never bytes that were not adjacent on the wire"},
+    {"id": "C15_S8r", "theorem": "Iora.C15.S8_raw_view", "kind": "proved",
+     "statement": "server: handleIncomingData's dispatches are `dispatch` of the extracted requestData strings (links S8c/S9 to srvFeed)"},
+    {"id": "C15_S2L", "theorem": "Iora.C15.S2_long_segmentation_independent", "kind": "proved",
+     "statement": "server: segmentation independence with the per-step hypothesis `fits` (every read fits the cap together with the carried remainder) instead of a bound on the connection's total"},
+    {"id": "C15_S2Lw", "theorem": "Iora.C15.S2_fits_of_total", "kind": "proved",
+     "statement": "server: a stream that fits the cap as a whole fits it read by read (S2L subsumes S2)"},
+    {"id": "C15_S1K", "theorem": "Iora.C15.S1_keepalive_exact", "kind": "proved",
+     "statement": "server: ANY pipeline of well-formed requests of at most R bytes in reads of at most L bytes, R + L <= MAX_BUFFER_SIZE, of unbounded total length, is dispatched completely and in order; the connection stays open with an empty buffer"},
+    {"id": "C15_S9a", "theorem": "Iora.C15.S9_pass_extraction_independent_of_pool", "kind": "proved",
+     "statement": "server: within one handleIncomingData call the extracted requests do not depend on how many tryEnqueue calls succeed (refused ones get 503, the loop goes on)"},
+    {"id": "C15_S9", "theorem": "Iora.C15.S9_extraction_oracle_independent", "kind": "proved",
+     "statement": "server: for EVERY interleaving of reads (arbitrary free queue slots), worker runs and the engine's close callback, the extracted requests are what the I/O thread alone extracts from the first j reads"},
+    {"id": "C15_S9b", "theorem": "Iora.C15.S9_workers_fifo", "kind": "proved",
+     "statement": "server: handled events ++ still-queued requests = processHttpRequest of the accepted requests in acceptance order (each once)"},
+    {"id": "C15_S9c", "theorem": "Iora.C15.S9_no_refusal", "kind": "proved",
+     "statement": "server: with enough free slots nothing is refused and the session is exactly the I/O thread's"},
+    {"id": "C15_gen_close", "theorem": "Iora.C15.gen_io_close", "kind": "proved",
+     "statement": "Gen conformance: every close of handleIncomingData goes through rejectSession, which erases the session under _sessionMutex before closeSession (FC15b)"},
+    {"id": "C15_gen_fold", "theorem": "Iora.C15.gen_case_fold", "kind": "proved",
+     "statement": "Gen conformance: handleIncomingData folds case with the ASCII-only asciiLower, not ::tolower on plain char (FC15c)"},
+    {"id": "C15_gen_query", "theorem": "Iora.C15.gen_query_params", "kind": "proved",
+     "statement": "Gen conformance: the query conversion statements of processHttpRequest are the ones queryParams was written from"},
+    {"id": "C15_gen_ws", "theorem": "Iora.C15.gen_field_name_ws", "kind": "proved",
+     "statement": "Gen conformance: fromWireFormat throws 400 for SP/HTAB between a field name and the colon, before trimming (FC15d)"},
+    {"id": "C15_S6c", "theorem": "Iora.C15.S6c_ws_before_colon_rejected", "kind": "proved",
+     "statement": "server: a request with whitespace between any field name and its colon (`Content-Length : 5`) is answered 400, never handed to a handler"},
+    {"id": "C15_S6d", "theorem": "Iora.C15.S6d_reject_status", "kind": "proved",
+     "statement": "server: whatever bytes the extractor hands over, a request the parser rejects is answered with one of the statuses the source throws (Gen.Http.requestErrorStatuses = 400/414/501/505) or the generic 500"},
+    {"id": "C15_gen_store", "theorem": "Iora.C15.gen_client_header_store", "kind": "proved",
+     "statement": "Gen conformance: HttpClient::parseHeaderBlock assigns resp.headers[name] (last line wins) and combines only Connection"},
     {"id": "C15_F26w", "theorem": "Iora.C15.F26_original_arithmetic_wraps", "kind": "proved",
      "statement": "the unrepaired size_t arithmetic returns pos to the start of the line ffffffffffffffec"},
 ]
@@ -1245,6 +1646,11 @@ def gen_all(ctx, quick, scale):
     cases += gen_server_pipeline_offsets(ctx, rng.fork("sp"), quick)
     cases += gen_server_direct(ctx, rng.fork("sd"), 200 * scale)
     cases += gen_leading_zero_lengths(ctx, rng.fork("lz"), quick)
+    cases += gen_server_reach(ctx, rng.fork("sr"), quick)
+    cases += gen_server_long(ctx, rng.fork("sl"), quick)
+    cases += gen_server_gap(ctx, rng.fork("sg"), quick)
+    cases += gen_server_conn(ctx, rng.fork("so"), 120 * scale, quick)
+    cases += gen_client_reach(ctx, rng.fork("cr"), quick)
     return cases
 
 
@@ -1272,8 +1678,59 @@ def run(ctx: Ctx):
         framing_calls = 0
         segs_compared = 0
         xr_calls = 0
+        reach = {"client_error_kinds": {}, "client_xr_outcomes": {}, "server_worker_statuses": {}, "server_io_events": {}, "server_requests_per_read": {},
+                 "server_io_closes": 0, "server_ops": {}, "client_body_modes": {}, "max_field_lines": {"client": 0, "server": 0},
+                 "server_connection_total_bytes_max": 0, "xr_reruns": 0}
+
+        def bump(d, k):
+            d[k] = d.get(k, 0) + 1
         for c, impl, model in res:
             dist[c["cat"]] = dist.get(c["cat"], 0) + 1
+            # measured from the IMPLEMENTATION's answers: which branches the correspondence run reached
+            tot = 0
+            for o, l in zip(c["ops"], impl):
+                if o.startswith("cl "):
+                    if l.startswith("error "):
+                        bump(reach["client_error_kinds"], l.split()[1])
+                    elif l.startswith("more ") and " mode=" in l:
+                        bump(reach["client_body_modes"], l.split(" mode=")[1].split()[0])
+                    if o.startswith("cl feed") and len(o) > 200:
+                        reach["max_field_lines"]["client"] = max(reach["max_field_lines"]["client"], o.count("0d0a"))
+                elif o.startswith("xr "):
+                    bump(reach["client_xr_outcomes"], " ".join(l.split()[:2]) if not l.startswith("response") else "response " + l.rsplit(" ", 1)[1])
+                elif o.startswith("sv "):
+                    bump(reach["server_ops"], o.split()[1])
+                    if o == "sv reset":
+                        tot = 0
+                    if o.startswith("sv data"):
+                        tot += (len(o) - 8) // 2
+                        reach["server_connection_total_bytes_max"] = max(reach["server_connection_total_bytes_max"], tot)
+                    if " | io=" in l:
+                        w, io = l.split(" | io=")[0], l.split(" | io=")[1].split(" | ")[0]
+                        nr = 0
+                        for e in (w.split(",") if w != "-" else []):
+                            if e.startswith("S:"):
+                                bump(reach["server_worker_statuses"], e[2:])
+                            elif e.startswith("R/"):
+                                nr += 1
+                                reach["max_field_lines"]["server"] = max(reach["max_field_lines"]["server"], e.split("/")[3].count(";") + 1)
+                        if o.startswith("sv data"):
+                            bump(reach["server_requests_per_read"], str(nr) if nr < 10 else "10+")
+                        for e in (io.split(",") if io != "-" else []):
+                            bump(reach["server_io_events"], e)
+                        if "X" in io.split(","):
+                            reach["server_io_closes"] += 1
+            if c["cat"] == "client-xr":
+                # real 300/1500 ms timeouts run inside an xr op: an answer that differs from the encoded one is only believed if the
+                # op gives the same answer when it is re-run alone (a stalled machine is machinery, not a finding)
+                sus = [i for i, (op, l, w) in enumerate(zip(c["ops"], impl, c["expect"]))
+                       if monitor_case({"cat": "client-xr", "ops": [op], "expect": [w]}, [l])]
+                for i in sus[:4]:
+                    out, rc, err = ctx.run_lines([hb], [c["ops"][i]], timeout=300)
+                    reach["xr_reruns"] += 1
+                    if out and out[0] != impl[i]:
+                        ctx.notes.append("xr op answered `%s` in the batch and `%s` alone: the batch answer is discarded (timing)" % (impl[i][:60], out[0][:60]))
+                        impl[i] = out[0]
             framing_calls += sum(1 for o in c["ops"] if not o.endswith("reset") and " reset " not in o)
             segs_compared += c.get("nseg", 0)
             if c["cat"] == "client-xr":
@@ -1305,25 +1762,32 @@ def run(ctx: Ctx):
         ctx.extra["framing_calls"] = framing_calls
         ctx.extra["real_executeRequest_calls"] = xr_calls
         ctx.extra["segmentations_compared"] = segs_compared
+        ctx.extra["branches_reached"] = reach
     ctx.extra["input_distribution"] = dist
     ctx.extra["repo_tree_sha"] = ctx.repo_tree_sha(ANCHOR_FILES)
     ctx.extra["not_proved"] = [
         "\"never throws out of the I/O thread\" has no theorem: the models are total functions whose outcomes are enumerated, but that C++ expressions outside the "
         "modelled decisions do not throw (allocation, std::string/iostream internals, handlers) is only observed - the harness catches and reports every exception "
         "that leaves handleIncomingData / executeRequest other than the modelled ones",
-        "client F1: Content-Length given as an identical duplicate field or as a list (`5, 5`) is covered by generator + lockstep + monitor only (RespWF admits one framing field); "
+        "client F1: Content-Length given as an identical duplicate field or as a list (`5, 5`), and a Transfer-Encoding spread over several field lines, are covered by "
+        "generator + lockstep + monitor only (RespWF admits one framing field line; the store shape `last line wins, only Connection combines` is pinned by gen_client_header_store); "
         "HEAD/204/304 with arbitrary fields is F1_exact_nobody",
-        "server: error statuses of malformed requests (400/414/501/505) are modelled and lockstep-checked, not characterised by theorems (response formation is C16)",
-        "server paths outside the model: the 503 answer when the thread pool refuses the task, sessions upgraded to WebSocket (C18), closeSession while the server shuts down, "
-        "the worker's close after a parser-rejected request (S2 is about the I/O thread's closes)",
+        "server: error statuses of malformed requests (400/414/501/505) are modelled, lockstep-checked and (server-reach family) compared with generator-side expectations, "
+        "not characterised by theorems beyond S6c (response formation is C16)",
+        "server paths still outside the model: sessions upgraded to WebSocket (C18; processHttpRequest moves the buffer), the `_shutdown` branch of processHttpRequest / closeSession "
+        "during shutdown (S8a holds there too since rejectSession erases before it asks for the close, but no op drives it)",
+        "server S9 models the pool as `how many more tryEnqueue calls succeed` and one FIFO worker (the harness parks all workers but one); handlers running concurrently on several workers are C16",
+        "req.params: modelled (queryParams), lockstep-checked against an independent Python reading for every generated target; no theorem beyond the examples and the Gen pin",
         "client F2 is stated for streams that fit the cap (no prefix trips the cap check); with interim 1xx responses and a total above the cap the cap check is segmentation-dependent by design (erased interims no longer count)",
         "wall-clock bound per framing call is measured by the watchdog (5 s CPU / 60 s wall), termination itself is a theorem (total functions with strictly decreasing measures)"]
     ctx.assumptions += ["client: HttpClient::executeRequest itself is executed (xr ops) over a Transport whose engine is scripted: connect, send, every receiveSync result (data in the scripted pieces, "
-                        "PeerClosed, Timeout, BufferOverflow, ShuttingDown, Cancelled), effectiveCap, the frameResponse arguments and the reuse/evict decision are the real code; "
+                        "PeerClosed, Timeout, BufferOverflow, ShuttingDown, Cancelled), effectiveCap (incl. the cap throw inside the real loop), the frameResponse arguments and the reuse/evict decision are the real code; "
                         "the per-read `cl feed` ops additionally compare the carried state through a replica of the loop body",
-                        "server: requests are dispatched to a pool of which all workers but one are parked, so handlers run in dispatch order (response ordering is C16)",
-                        "the scripted engine records close()/send calls; the harness erases the session after a close as the engine's close callback would",
-                        "::tolower in handleIncomingData is modelled as ASCII folding (C locale; the process never calls setlocale)",
+                        "server: requests are dispatched to a pool of which all workers but one are parked, so handlers run in dispatch order (response ordering is C16); `sv hold k` parks the last worker too and "
+                        "fills the real task queue so that exactly k more tryEnqueue calls succeed (queue capacity from Gen, 1024), `sv release` lets the queued requests run",
+                        "the scripted engine records close()/send calls and runs send completions synchronously, as TcpEngine::sendAsync does; it has no close callback of its own: the harness never erases the "
+                        "session behind the server's back - the engine's close callback lands only where the script says `sv closed` (the body of HttpServer::start()'s onClose lambda is replicated there: "
+                        "erase from _sessionInfo and _upgradedSessions under _sessionMutex)",
                         "MAX_BODY_SIZE (10 MiB) is unreachable behind MAX_BUFFER_SIZE (1 MiB): the effective per-request cap is the buffer cap; a request above it is closed, never mis-framed "
                         "(judged a configuration inconsistency, not a C15 violation: the statement bounds buffering by the configured caps and quantifies bodies up to the cap)"]
     return ctx.finish(level="proof", rule="a case = one generated byte stream fed to the real framing code under a family of segmentations (whole, every single cut or a sample of cuts, "
@@ -1365,6 +1829,12 @@ def report_property(ctx, hb, c, impl, model, fails):
     ctx.violation("property", what, obj, found_input=True)
 
 
+def expand_op(op):
+    """`{61*1000000}` inside an op of a corpus file stands for the hex byte repeated that many times (keeps MiB-sized witnesses small)"""
+    import re
+    return re.sub(r"\{([0-9a-f]{2})\*(\d+)\}", lambda m: m.group(1) * int(m.group(2)), op)
+
+
 def load_corpus():
     d = os.path.join(os.path.dirname(os.path.dirname(os.path.abspath(__file__))), "corpus", "C15")
     out = []
@@ -1372,6 +1842,7 @@ def load_corpus():
         for fn in sorted(os.listdir(d)):
             if fn.endswith(".json"):
                 c = json.load(open(os.path.join(d, fn)))
+                c["ops"] = [expand_op(o) for o in c["ops"]]
                 c.setdefault("cat", "corpus")
                 out.append(c)
     return out
